@@ -1,11 +1,7 @@
-mod clock;
-mod host;
-mod support;
-mod wire;
 mod smoke;
 
 fn main() {
-    support::install_logger();
+    ptpsim::support::install_logger();
     vcommon::install_panic_hook();
     smoke::run();
 }
